@@ -40,11 +40,13 @@ type Stats struct {
 	ChildWallMs    float64          `json:"child_wall_ms"`
 	Samples        []any            `json:"samples"`
 	Shrinks        int64            `json:"shrink_evaluations"`
+	SeedsUsed      int64            `json:"rapid_seeds_used"`
+	Kinds          map[string]int64 `json:"bundle_kinds"`
 }
 
 func newStats() *Stats {
 	return &Stats{Nontrivial: map[string]bool{}, Interleavings: map[string]bool{}, FaultsFired: map[string]int64{},
-		Outcomes: map[string]int64{}, Probes: map[string]int64{}, Known: map[string]int64{}}
+		Outcomes: map[string]int64{}, Probes: map[string]int64{}, Known: map[string]int64{}, Kinds: map[string]int64{}}
 }
 
 func caseHash(c *casefmt.Case) string {
@@ -106,6 +108,15 @@ func (s *Stats) probe(name string) {
 	s.mu.Unlock()
 }
 
+func (s *Stats) kind(k string) {
+	s.mu.Lock()
+	if s.Kinds == nil {
+		s.Kinds = map[string]int64{}
+	}
+	s.Kinds[k]++
+	s.mu.Unlock()
+}
+
 func (s *Stats) known(id string) {
 	s.mu.Lock()
 	s.Known[id]++
@@ -158,6 +169,10 @@ func (s *Stats) merge(o *Stats) {
 	}
 	s.ChildWallMs += o.ChildWallMs
 	s.Shrinks += o.Shrinks
+	s.SeedsUsed += o.SeedsUsed
+	for k, v := range o.Kinds {
+		s.Kinds[k] += v
+	}
 	for _, x := range o.Samples {
 		if len(s.Samples) < 4 {
 			s.Samples = append(s.Samples, x)
